@@ -236,6 +236,7 @@ CHECKS = {
         "exhaustive": True,
         "units": [
             unit("denied", "^TestC08Denied$", 0, 0, shards=(8, 8)),
+            unit("concurrent", "^TestC08Concurrent$", 0, 0, shards=(4, 4)),
             unit("census", "^TestC08Census$", 0, 0, shards=(8, 8)),
             unit("random-builtins", "^TestC08AllBuiltins$", 4, 40, shards=(8, 16)),
         ],
